@@ -215,6 +215,10 @@ Definition sigma_y_sqr (c : beam_cfg) (z : Q) : Q := b_sigma c * b_sigma c + z *
 Definition gauss2 (expf : Q -> Q) (c : beam_cfg) (u v : Q) : Q :=
   expf (- (1 # 2) * (u * u + v * v)) / (2 * k_pi c).
 
+(* the same Gaussian cut off outside the clamp radius (clamp_to_zero): zero where u^2 + v^2 > clamp_sigma^2 *)
+Definition gauss2_clamped (expf : Q -> Q) (c : beam_cfg) (u v : Q) : Q :=
+  if Qltb (a_clamp_sigma c * a_clamp_sigma c) (u * u + v * v) then 0 else gauss2 expf c u v.
+
 (* what is assumed of the sqrt oracle: positive and non-decreasing on positive arguments *)
 Definition sqrt_like (f : Q -> Q) : Prop :=
   (forall x, 0 < x -> 0 < f x) /\ (forall x y, 0 < x -> x <= y -> f x <= f y).
